@@ -1,22 +1,8 @@
-import codec
-from generic import run_check
-
-
-def build(work):
-    exe, schema = codec.build_driver(work)
-    return exe, dict(VERIF_SCHEMA=schema, VERIF_MODE="c01")
+from codecmode import run
 
 
 def main(tier, seed, replay):
-    codec.write_fam_env()
-    return run_check(
-        "C01", tier, seed, replay,
-        tables=["TablesCodec"],
-        model_targets=["Corr/CodecCorr.vo"],
-        prop_module="Props.C01",
-        driver="codecdrv", build=build,
-        corr_name="corr:codec (model encoder bytes / decoder value vs the generated bindings, 5 wire formats)",
-        trusted=[],
-        assume=[],
-        coqchk_modules=["GR.Props.C01"],
-    )
+    return run("C01", "c01", tier, seed, replay, "Props.C01",
+               "corr:codec-roundtrip (model encoder bytes and model decoder value vs the generated bindings, 5 wire formats)",
+               assume=["JSON cannot carry strings that are not valid UTF-8: the JSON round trip is claimed for valid UTF-8 strings and keys "
+                       "(bytes and fixed: arbitrary); ROR2: arbitrary byte strings"])
